@@ -684,6 +684,16 @@ def run_plan(plan, sched_seed=None, sched_replay=None):
     if len(plan['conns']) > 1:
         sim.probes['multi_conn'] += 1
 
+    if res.get('stuck') is not None and plan.get('socks_stuck') == 'fin' \
+            and not res['stuck'].gone and not cut_fired and \
+            not sim.loop.capped:
+        # its request can never be completed any more: nothing is left that
+        # this socket could be kept for
+        world.violation(
+            'socket-left-open', 'a SOCKS client shut down its sending side '
+            'in the middle of its request; the listener\'s socket for it is '
+            'still open at the quiescent point', sig='socks-fin')
+
     if plan.get('lclose2') and conn is not None and not cut_fired and \
             not sim.loop.capped and conn.is_closed():
         world.violation('connection-dropped', 'closing a remote listener '
